@@ -449,7 +449,25 @@ func c20Structure(rt *rapid.T, target int) []byte {
 	n := rapid.IntRange(1, 30).Draw(rt, "struct_n") // chains stay below the open finding's signature
 	switch target {
 	case c20GRL:
-		switch rapid.IntRange(0, 8).Draw(rt, "struct_kind") {
+		switch rapid.IntRange(0, 10).Draw(rt, "struct_kind") {
+		case 9, 10:
+			// a rule skeleton in which every part may be empty, with drawn separators (blank, line break,
+			// comments, nothing) between the parts
+			sep := func(label string) string {
+				return rapid.SampledFrom([]string{" ", "", "\n", " // c\n", " /* c */ ", "\t", " \x01 "}).Draw(rt, label)
+			}
+			part := func(label string, full ...string) string {
+				return rapid.SampledFrom(append([]string{""}, full...)).Draw(rt, label)
+			}
+			var b strings.Builder
+			for i, k := 0, rapid.IntRange(1, 2).Draw(rt, "skeleton_rules"); i < k; i++ {
+				b.WriteString(part("sk_rule", "rule", "RULE") + sep("s1") + part("sk_name", "R", "R2", "then") + sep("s2") + part("sk_desc", `"d"`, "'d'") + sep("s3") +
+					part("sk_sal", "salience 1", "salience", "salience -") + sep("s4") + part("sk_lb", "{", "{") + sep("s5") +
+					part("sk_when", "when", "when", "When") + sep("s6") + part("sk_cond", "F.A == 1", "true", "F.A ==", "(", "F.A == 1 &&") + sep("s7") +
+					part("sk_then", "then", "then", "THEN") + sep("s8") + part("sk_acts", "F.B = 2;", "F.B = 2", ";", "F.B = ;", "Retract(\"R\");", "F.B = 2; F.C = 3;") + sep("s9") +
+					part("sk_rb", "}", "}", "}}") + sep("s10"))
+			}
+			return []byte(b.String())
 		case 5:
 			// selectors chained on a call result
 			return []byte("rule D { when F.M()" + strings.Repeat("[0]", n) + " == 1 then Retract(\"D\"); }")
